@@ -29,9 +29,9 @@ type CaseSpec struct {
 	Pred       int  `json:"pred"`       // 0 nil, 1 AnyError, 2 Error(exact), 3 ErrorHasPrefix, 4 ErrorHasSuffix, 5 ErrorMatch(valid), 6 ErrorMatch(invalid pattern), 7 ErrorMatch(first line of the error text followed by .*$: met only by one-line texts), 8 a caller's own predicate that says no without reporting anything, 9 a caller's own predicate that always says yes, 10 a caller's own predicate that reports and says no
 	PredHit    bool `json:"pred_hit"`   // predicate text chosen to match (true) or to miss (false) the scripted error text
 	MOut       int  `json:"m_out"`      // marshal: 0 right data, 1 wrong data, 2 nil data, 3 the right data with a line feed added at (or, with NLData, removed from) its end
-	MErr       int  `json:"m_err"`      // marshal: 0 no error, 1 error, 2 panic, 3 an error value that is a nil pointer of an error type, 4 error with a two-line text, 5 panic whose text is the same for every case and list
+	MErr       int  `json:"m_err"`      // marshal: 0 no error, 1 error, 2 panic, 3 an error value that is a nil pointer of an error type, 4 error with a two-line text, 5 panic whose text is the same for every case and list, 6 panic with a value whose own Error method panics (only "some error" is known of the result)
 	UStore     int  `json:"u_store"`    // unmarshal: 0 stores the expected value, 1 stores a different value, 2 stores nothing, 3 stores the empty value (for a slice type: an empty, non-nil slice)
-	UErr       int  `json:"u_err"`      // unmarshal: 0 no error, 1 error, 2 panic (after storing), 3 nil-pointer error value, 4 error with a two-line text, 5 panic whose text is the same for every case and list
+	UErr       int  `json:"u_err"`      // unmarshal: 0 no error, 1 error, 2 panic (after storing), 3 nil-pointer error value, 4 error with a two-line text, 5 panic whose text is the same for every case and list, 6 panic with a value whose own Error method panics (only "some error" is known of the result)
 	NilValue   bool `json:"nil_value"`  // pointer type only: the case's Value is a nil pointer
 	EmptyData  bool `json:"empty_data"` // OnlyMarshal cases only: the expected Data is empty (the marshaler returns nil or an empty slice)
 	NLData     bool `json:"nl_data"`    // the case's Data ends with a line feed (MOut 3 then returns it without one)
@@ -76,11 +76,21 @@ func doMarshal(tag int) ([]byte, error) {
 		return nil, fmt.Errorf("no marshal script for tag %d", tag)
 	}
 	s := v.(mScript)
+	if s.panic == panicWithBrokenValue {
+		panic((*brokenError)(nil))
+	}
 	if s.panic != "" {
 		panic(s.panic)
 	}
 	return s.data, s.err
 }
+
+// brokenError is an error type whose Error method does not survive a nil receiver: a panic value that cannot be printed naively.
+type brokenError struct{ text *string }
+
+func (e *brokenError) Error() string { return *e.text }
+
+const panicWithBrokenValue = "\x00panic with a value whose Error method panics"
 
 func doUnmarshal(data []byte, set func(tag int, payload string)) error {
 	tag, err := strconv.Atoi(strings.TrimSpace(strings.TrimPrefix(string(data), "u:")))
@@ -94,6 +104,9 @@ func doUnmarshal(data []byte, set func(tag int, payload string)) error {
 	s := v.(uScript)
 	if s.store {
 		set(s.tag, s.payload)
+	}
+	if s.panic == panicWithBrokenValue {
+		panic((*brokenError)(nil))
 	}
 	if s.panic != "" {
 		panic(s.panic)
@@ -508,6 +521,8 @@ func errOf(cs CaseSpec, marshal bool, tag int) errInfo {
 			return errInfo{isErr: true, exact: "boom line one " + t + "\nline two.", prefix: "boom line one " + t + "\nline two."}
 		case cs.MErr == 5:
 			return errInfo{isErr: true, prefix: "panic: boom again\n"}
+		case cs.MErr == 6:
+			return errInfo{isErr: true, prefix: "panic: "}
 		}
 		return errInfo{}
 	}
@@ -526,6 +541,8 @@ func errOf(cs CaseSpec, marshal bool, tag int) errInfo {
 		return errInfo{isErr: true, exact: "uboom line one " + t + "\r\nline two", prefix: "uboom line one " + t + "\r\nline two"}
 	case 5:
 		return errInfo{isErr: true, prefix: "panic: boom again\n"}
+	case 6:
+		return errInfo{isErr: true, prefix: "panic: "}
 	}
 	return errInfo{}
 }
@@ -550,9 +567,9 @@ func modelCase(cs CaseSpec, idx int, mainMarshal, dirMarshal bool, tag int) case
 	e := errOf(cs, dirMarshal, tag)
 	met := evalPred(cs.Pred, text, e)
 	if dirMarshal {
-		dataNil := cs.NilValue || (cs.MErr == 2 || cs.MErr == 5) || cs.MOut == 2
-		dataRight := cs.MOut == 0 && !cs.NilValue && (cs.MErr != 2 && cs.MErr != 5)
-		if cs.EmptyData && cs.MOut == 2 && !cs.NilValue && (cs.MErr != 2 && cs.MErr != 5) {
+		dataNil := cs.NilValue || (cs.MErr == 2 || cs.MErr == 5 || cs.MErr == 6) || cs.MOut == 2
+		dataRight := cs.MOut == 0 && !cs.NilValue && (cs.MErr != 2 && cs.MErr != 5 && cs.MErr != 6)
+		if cs.EmptyData && cs.MOut == 2 && !cs.NilValue && (cs.MErr != 2 && cs.MErr != 5 && cs.MErr != 6) {
 			dataRight = true // nil result against empty expected data
 		}
 		if cs.Before == 4 || effectiveAfter(cs) == 4 {
@@ -633,6 +650,8 @@ func runList[T any](spec ListSpec, mkValue func(tag int, payload string, isNil b
 			ms.err = errors.New("boom line one " + strconv.Itoa(tag) + "\nline two.")
 		case 5:
 			ms.panic = "boom again"
+		case 6:
+			ms.panic = panicWithBrokenValue
 		}
 		mReg.Store(tag, ms)
 		us := uScript{tag: tag, payload: "p" + strconv.Itoa(tag)}
@@ -657,6 +676,8 @@ func runList[T any](spec ListSpec, mkValue func(tag int, payload string, isNil b
 			us.err = errors.New("uboom line one " + strconv.Itoa(tag) + "\r\nline two")
 		case 5:
 			us.panic = "boom again"
+		case 6:
+			us.panic = panicWithBrokenValue
 		}
 		uReg.Store(tag, us)
 		defer mReg.Delete(tag)
@@ -856,6 +877,9 @@ func normalise(spec ListSpec) ListSpec {
 		if c.After > 4 {
 			c.After = 1
 		}
+		if (c.MErr == 6 || c.UErr == 6) && c.Pred != 0 && c.Pred != 1 && c.Pred < 8 {
+			c.Pred = 1 // how such a panic value is put into words is not specified: only text-independent predicates
+		}
 		if c.Constraint != 1 {
 			c.EmptyData = false // an empty Data cannot carry the scripted unmarshal input
 		}
@@ -1026,9 +1050,9 @@ func genCase(rt *rapid.T) CaseSpec {
 		Pred:       rapid.SampledFrom([]int{0, 0, 0, 0, 1, 2, 3, 4, 5, 5, 6, 7, 7, 8, 9, 10}).Draw(rt, "pred"),
 		PredHit:    rapid.Bool().Draw(rt, "predHit"),
 		MOut:       rapid.SampledFrom([]int{0, 0, 1, 2, 3}).Draw(rt, "mOut"),
-		MErr:       rapid.SampledFrom([]int{0, 0, 1, 2, 3, 4, 5}).Draw(rt, "mErr"),
+		MErr:       rapid.SampledFrom([]int{0, 0, 1, 2, 3, 4, 5, 6}).Draw(rt, "mErr"),
 		UStore:     rapid.SampledFrom([]int{0, 0, 1, 2, 3}).Draw(rt, "uStore"),
-		UErr:       rapid.SampledFrom([]int{0, 0, 1, 2, 3, 4, 5}).Draw(rt, "uErr"),
+		UErr:       rapid.SampledFrom([]int{0, 0, 1, 2, 3, 4, 5, 6}).Draw(rt, "uErr"),
 		NilValue:   rapid.IntRange(0, 9).Draw(rt, "nilValue") == 0,
 		EmptyData:  rapid.IntRange(0, 7).Draw(rt, "emptyData") == 0,
 		NLData:     rapid.IntRange(0, 7).Draw(rt, "nlData") == 0,
@@ -1114,6 +1138,13 @@ func TestCheck(t *testing.T) {
 			for out := 0; out < 3; out++ {
 				for er := 0; er < 3; er++ {
 					specs = append(specs, CaseSpec{Constraint: 1, EmptyData: true, Pred: pred, PredHit: true, MOut: out, MErr: er})
+				}
+			}
+		}
+		for con := 0; con < 3; con++ { // panics with a value that cannot be printed naively
+			for _, pred := range []int{0, 1, 8, 9, 10} {
+				for out := 0; out < 3; out++ {
+					specs = append(specs, CaseSpec{Constraint: con, Pred: pred, MOut: out, MErr: 6, UStore: out, UErr: 6})
 				}
 			}
 		}
@@ -1224,6 +1255,7 @@ func TestCheck(t *testing.T) {
 			{Pred: 7, MErr: 1, MOut: 2, UErr: 1, UStore: 2}, {Pred: 7, MErr: 4, MOut: 2, UErr: 4, UStore: 2}, {Pred: 7, MErr: 2, MOut: 2, UErr: 2, UStore: 2}, {Pred: 3, PredHit: true, MErr: 4, MOut: 2, UErr: 4, UStore: 2},
 			{Pred: 8, MOut: 2, UStore: 2}, {Pred: 8, MErr: 1, MOut: 2, UErr: 1, UStore: 2}, {Pred: 9, MOut: 2, UStore: 2}, {Pred: 10, MErr: 1, MOut: 2, UErr: 1, UStore: 2}, {MOut: 3}, {NLData: true}, {NLData: true, MOut: 3},
 			{Pred: 1, PredHit: true, MErr: 1, MOut: 2, UErr: 1, UStore: 3}, {UStore: 3},
+			{MErr: 6, UErr: 6}, {Pred: 1, MErr: 6, MOut: 2, UErr: 6, UStore: 2},
 			{Pred: 4, PredHit: true, MErr: 5, MOut: 2, UErr: 5, UStore: 2}, {Pred: 2, PredHit: true, MErr: 5, MOut: 2, UErr: 5, UStore: 2}, {MErr: 5, UErr: 5},
 			{Before: 5}, {Before: 6, After: 2}, {Before: 6, After: 3, MErr: 2, UErr: 2, Pred: 3, PredHit: true, UStore: 2}, // hooks that rewrite the case they are handed; nil result for empty data
 		}
